@@ -136,3 +136,8 @@ package xreq
 //@ func (*socket).SetOption
 //@   ensures (name == protocol.OptionReadQLen || name == protocol.OptionWriteQLen) && isnil(result) ==> evcount("closed") == 1
 //@   ensures !isnil(result) ==> evcount("closed") == 0
+// ---- generated Info contracts (tools/gen_info_contracts.py) ----
+//@ func (*socket).Info
+//@   ensures result.Self == 48 && result.Peer == 49 && result.SelfName == "req" && result.PeerName == "rep"
+//@
+// ---- end generated Info contracts ----
